@@ -382,9 +382,11 @@ def _samples():
         return T.Field("x_" + s.strip("_"), table=A() if slot in (s, None) else C)
 
     def sample_query(base, slot, clickhouse=False):
+        # every element is a bare Field, so that a probe depends only on Field and on the class under test
         fa = lambda s: f(slot, s)    # noqa: E731
+        Z = Table("z")
         frm = A() if slot in ("_from", None) else C
-        q = base.from_(frm)
+        q = base.from_(frm).from_(Z)
         if slot in ("_with",):
             q = q.with_(Query.from_(A()).select("w"), "w")
         q = q.select(fa("_selects"))
@@ -395,10 +397,10 @@ def _samples():
         if clickhouse:
             q = q.prewhere(fa("_prewheres")).limit_by(1, fa("_limit_by"))
         else:
-            q._prewheres = fa("_prewheres") == 1
+            q._prewheres = fa("_prewheres")
         d = Table("d")
         item = A() if slot in ("_joins", None) else d
-        q = q.join(item).on(T.Field("k", table=item) == T.Field("k", table=frm))
+        q = q.join(item).on(T.Field("k", table=Z))
         # INSERT / UPDATE parts are set directly: one object carries every slot
         q._insert_table = A() if slot in ("_insert_table", None) else None
         q._update_table = A() if slot in ("_update_table", None) else None
@@ -408,14 +410,14 @@ def _samples():
         return q
 
     def agg(slot, cls=T.AggregateFunction):
-        return cls("SUM", f(slot, "args")).filter(f(slot, "_filters") > 1)
+        return cls("SUM", f(slot, "args")).filter(f(slot, "_filters"))
 
     def analytic(slot):
-        x = T.AnalyticFunction("SUM", f(slot, "args")).filter(f(slot, "_filters") > 1)
+        x = T.AnalyticFunction("SUM", f(slot, "args")).filter(f(slot, "_filters"))
         return x.over(f(slot, "_partition")).orderby(f(slot, "_orderbys"))
 
     def case(slot):
-        return T.Case().when(f(slot, "_cases_crit") == 1, f(slot, "_cases_term")).else_(f(slot, "_else"))
+        return T.Case().when(f(slot, "_cases_crit"), f(slot, "_cases_term")).else_(f(slot, "_else"))
 
     def extract_(slot):
         return fn.Extract("YEAR", f(slot, "field"))
@@ -427,13 +429,13 @@ def _samples():
         "KNeg": lambda s: T.Negative(f(s, "term")),
         "KArith": lambda s: T.ArithmeticExpression(E.Arithmetic.add, f(s, "left"), f(s, "right")),
         "KBasic": lambda s: T.BasicCriterion(E.Equality.eq, f(s, "left"), f(s, "right")),
-        "KCplx": lambda s: T.ComplexCriterion(E.Boolean.and_, f(s, "left") == 1, f(s, "right") == 2),
-        "KIn": lambda s: T.ContainsCriterion(f(s, "term"), T.Tuple(f(s, "container"), 1)),
+        "KCplx": lambda s: T.ComplexCriterion(E.Boolean.and_, f(s, "left"), f(s, "right")),
+        "KIn": lambda s: T.ContainsCriterion(f(s, "term"), f(s, "container")),
         "KBetween": lambda s: T.BetweenCriterion(f(s, "term"), f(s, "start"), f(s, "end")),
         "KPeriod": lambda s: T.PeriodCriterion(f(s, "term"), f(s, "start"), f(s, "end")),
         "KBitAnd": lambda s: T.BitwiseAndCriterion(f(s, "term"), T.ValueWrapper(3)),
         "KIsNull": lambda s: T.NullCriterion(f(s, "term")), "KNotNull": lambda s: T.NotNullCriterion(f(s, "term")),
-        "KNot": lambda s: T.Not(f(s, "term") == 1), "KAll": lambda s: T.All(f(s, "term")), "KEmpty": lambda s: T.EmptyCriterion(),
+        "KNot": lambda s: T.Not(f(s, "term")), "KAll": lambda s: T.All(f(s, "term")), "KEmpty": lambda s: T.EmptyCriterion(),
         "KCase": case, "KFunc": lambda s: T.Function("F", f(s, "args"), 1),
         "KTuple": lambda s: T.Tuple(f(s, "values"), 1), "KArray": lambda s: T.Array(f(s, "values"), 1),
         "KNested": lambda s: T.NestedCriterion(E.Equality.eq, E.Boolean.and_, f(s, "left"), f(s, "right"), f(s, "nested")),
@@ -442,7 +444,7 @@ def _samples():
         "KExists": lambda s: T.ExistsCriterion(sub(s, "container")),
         "KQuery": lambda s: sample_query(Query, s), "KClickHouse": lambda s: sample_query(ClickHouseQuery, s, True),
         "KJoin": lambda s: Join(A() if s in ("item", None) else C, E.JoinType.cross),
-        "KJoinOn": lambda s: JoinOn(A() if s in ("item", None) else C, E.JoinType.inner, f(s, "criterion") == 1),
+        "KJoinOn": lambda s: JoinOn(A() if s in ("item", None) else C, E.JoinType.inner, f(s, "criterion")),
         "KJoinUsing": lambda s: JoinUsing(A() if s in ("item", None) else C, E.JoinType.inner, [f(s, "fields")]),
     }
 
